@@ -215,6 +215,7 @@ class Generator:
 		self.long_arrays = long_arrays
 		self.stats = {}
 		self.toggles = {}
+		self.extreme = None      # 'min': every variable-length member as short as admissible; 'max': as long as this generator goes
 
 	def note(self, key):
 		self.stats[key] = self.stats.get(key, 0) + 1
@@ -259,6 +260,10 @@ class Generator:
 		limit = self.max_array
 		if count_field is not None and count_field.size == 1:
 			limit = min(limit, 255)
+		if self.extreme == 'min':
+			return 0
+		if self.extreme == 'max':
+			return limit
 		choice = self.rng.randrange(10)
 		if self.long_arrays and choice == 0:
 			return min(17, 255)
@@ -329,6 +334,8 @@ class Generator:
 				if isinstance(field_type.size, int) and not field_type.is_expandable:
 					return bytes(self.rng.randrange(256) for _ in range(field_type.size))
 				length = self.rng.choice([0, 1, 2, 7, 8, 9, 16, 31]) if not nonempty else self.rng.choice([1, 2, 9])
+				if self.extreme:
+					length = {('min', False): 0, ('min', True): 1, ('max', False): 31, ('max', True): 31}[(self.extreme, bool(nonempty))]
 				if count_field is not None:
 					length = min(length, (1 << (8 * count_field.size)) - 1)
 				return bytes(self.rng.randrange(256) for _ in range(length))
